@@ -73,13 +73,14 @@ func (self *containerMetaList) lookAhead() {
 	for {
 		if self.choiceCase != nil {
 			m = self.choiceCase.nextMeta()
+			if self.choiceCase.err != nil {
+				// the case iterator looked ahead into a nested choice and failed
+				self.err = self.choiceCase.err
+				self.choiceCase = nil
+				self.main = nil
+				return
+			}
 			if m == nil {
-				if self.choiceCase.err != nil {
-					self.err = self.choiceCase.err
-					self.choiceCase = nil
-					self.main = nil
-					return
-				}
 				self.choiceCase = nil
 				continue
 			}
